@@ -420,4 +420,6 @@ def mem_vs_stream(ctx, vlib):
                            why="stream loading (%s) differs from memory loading (%s) of the same document" % (a_str[i][:80], ref[:80]) if a_str[i] != ref
                                else "both readers agree with each other but not with the model")
                 (failing if a_str[i] != ref else diffs).append(rec)
-    return dict(evaluations=evals, failing=failing[:20], diffs=diffs[:20], classes=classes, hook=hook)
+    # measured: distinct (chunk size, case) pairs whose document is longer than the chunk, i.e. the stream reader refills its window
+    nontrivial = len(set((k, line) for k in impls for line in stream if len(line.split(" ")[-1]) // 2 > k))
+    return dict(evaluations=evals, failing=failing[:20], diffs=diffs[:20], classes=classes, hook=hook, distinct_nontrivial=nontrivial)
